@@ -197,11 +197,14 @@ def units(tier, seed):
         for part in range(4):
             out.append(("toy", {"curve": "t23a", "digests": [x.hex() for x in one[part::16] + multi]}))
         out.append(("toy", {"curve": "t23b", "digests": [x.hex() for x in one[::16] + multi]}))
+        out.append(("toy", {"curve": "t17x", "digests": [x.hex() for x in one[::4] + multi]}))
+        out.append(("toy", {"curve": "t31x", "digests": [x.hex() for x in one[::32] + multi]}))
+        out.append(("toy", {"curve": "t101x", "digests": [x.hex() for x in [b"\x00", b"\x61", b"\xff\x01"]], "dstep": 7}))
         out.append(("toy", {"curve": "t127", "digests": [x.hex() for x in [b"\x00", b"\x7f", b"\xff", b"\x83"] + multi[:3]], "dstep": 5}))
         out.append(("toy", {"curve": "t251a", "digests": [x.hex() for x in [b"\x01", b"\xff\xff", b"\x01\x0e"]], "dstep": 17}))
         out.append(("toy", {"curve": "t257", "digests": [x.hex() for x in [b"\x01", b"\xff\xff", b"\x01\x0e"]], "dstep": 17}))
     else:
-        for c in ("t13", "t23a", "t23b", "t29"):
+        for c in ("t13", "t23a", "t23b", "t29", "t17x", "t31x"):
             for part in range(4):
                 out.append(("toy", {"curve": c, "digests": [x.hex() for x in one[part::4] + multi]}))
         for c, step in (("t61", 1), ("t127", 3), ("t251a", 5), ("t257", 5), ("t1021a", 97), ("t65521b", 6007)):
